@@ -285,6 +285,11 @@ func init() {
 			}
 			add(s)
 		}
+		u := jobBase("none-att2-kill-then-unkill")
+		u.MaxAttempts, u.MaxFail = 2, 1
+		u.PodActions = fullPod
+		u.Kill, u.MaxKill, u.Unkill = []string{"0", "30"}, 1, true
+		add(u)
 		s := jobBase("none-notstarted-kill")
 		s.NotStarted = true
 		s.PodActions = fullPod
